@@ -155,11 +155,11 @@ def strata(tier):
     for r in GG_CROSSING:
         out.append(Stratum("G-G/crossing/" + r, "hyp", gg_crossing(r), n))
         out.append(Stratum("G-G/crossing/" + r + "/rot", "hyp", rotated(gg_crossing(r)), n // 2))
-    n = 32 if q else 1200
+    n = 48 if q else 1200
     for r in GK:
         out.append(Stratum("G-K/" + r, "hyp", gk(r), n))
         out.append(Stratum("G-K/" + r + "/rot", "hyp", rotated(gk(r)), n // 2))
-    n = 16 if q else 640
+    n = 36 if q else 640
     for r in KK:
         out.append(Stratum("K-K/" + r, "hyp", kk(r), n))
         out.append(Stratum("K-K/" + r + "/rot", "hyp", rotated(kk(r)), n // 2))
